@@ -25,5 +25,8 @@ SEmptyOrder == {[t \in Threads |-> IF t = 1 THEN <<Enq(1), K("process")>> ELSE I
 \* waitFor against everything that can make the queue look empty while events are in flight (C11's second clause)
 WF3 == {[t \in Threads |-> IF t = 1 THEN a ELSE IF t = 2 THEN <<K("waitFor")>> ELSE c] : a \in P1, c \in Consumer}
 WF2 == {[t \in Threads |-> IF t = 1 THEN a ELSE <<K("waitFor")>>] : a \in P1 \cup {<<Enq(1), K("take")>>, <<Enq(1), Enq(2), K("processUntil"), K("clear")>>}}
+\* two processing calls that overlap without nesting + an observer (S51); processOne with two events queued, the rest taken by somebody else (S76)
+SOverlap == {[t \in Threads |-> IF t = 1 THEN <<Enq(1), Enq(2), K("processOne"), K("empty")>> ELSE <<K("processOne")>>]}
+SLastOnly == {[t \in Threads |-> IF t = 1 THEN <<Enq(1), Enq(2), K("processOne")>> ELSE <<K("take"), K("empty")>>]}
 SPutBack == {[t \in Threads |-> IF t = 1 THEN <<Enq(2), Enq(3)>> ELSE <<K("processIf"), K("process")>>]}
 ====
